@@ -495,7 +495,14 @@ def check_C05(ctx):
         return st
     with ThreadPoolExecutor(max_workers=4) as ex:
         sts = list(ex.map(one, range(chunks)))
-    ctx.traces = sum(s["histories"] for s in sts)
+    free_runs = sum(s["histories"] for s in sts)
+    # every complete interleaving (at yield-point granularity) of small programs,
+    # generated by TLC from Sched.tla and executed under the token scheduler
+    sched_replay(ctx, "12", 1, 2)
+    if ctx.tier == "thorough":
+        sched_replay(ctx, "121", 1, 2)
+        sched_replay(ctx, "12", 2, 1)
+    ctx.coverage_extra["free_running_runs"] = free_runs
     for k in ("reads", "flushes"):
         ctx.coverage_extra["concurrent_" + k] = sum((s.get("extra") or {}).get(k, 0) for s in sts)
     return ctx.finish("model_checking",
@@ -503,9 +510,55 @@ def check_C05(ctx):
                       "readers (pin/read) for small programs: ReadsOneVersion, NoLostUpdate, FlushOrder (violated when pins are not in name "
                       "order); Reclaim.tla for node-level safety under the same interleavings (Pin/Unpin); conformance: real goroutines "
                       "(1 mutator, 1 flusher, 2-8 readers) under the Go scheduler perturbed at the verif-tag yield points, file I/O and "
-                      "visitor callbacks; events totally ordered by an atomic counter (Pub from inside rootCAS); TLC checks every read, "
+                      "visitor callbacks, AND every complete interleaving of the grants of Sched.tla (11 550 schedules quick; 60 060 + more "
+                      "thorough) executed deterministically under a token scheduler; events totally ordered by an atomic counter (Pub from "
+                      "inside rootCAS); TLC checks every read, "
                       "visit and Snapshot against ONE version current within its call interval, exactly-one publish per mutation, final "
                       "contents, and for every Flush the independently decoded image against versions current during the flush captured "
                       "monotonically in name order; non-trivial = concurrent run with >= 1 flush overlapping mutations",
                       ASSUME_COMMON + ["schedules are sampled (real scheduler + random pauses), not enumerated",
                                        "by-design unsynchronised accesses (itemLocMutex = false) are outside the specification"])
+
+
+def sched_cfg(prog, nreaders, reads):
+    return """CONSTANTS
+  Colls = {1, 2}
+  NReaders = %d
+  MutProg <- %s
+  NFlush = 1
+  SortedPins = TRUE
+  ReadsPerReader = %d
+SPECIFICATION SSpec
+INVARIANTS ReadsOneVersion NoLostUpdate FlushOrder
+CONSTRAINT Emit
+CHECK_DEADLOCK FALSE
+""" % (nreaders, {"12": "Prog2", "121": "Prog3"}[prog], reads)
+
+
+def sched_replay(ctx, prog, nreaders, reads, limit=None):
+    """All complete interleavings of the grants of Sched.tla for a small
+    program, executed on the real library under the token scheduler."""
+    h = os.path.join(ctx.work, "sched-%s-%d-%d.jsonl" % (prog, nreaders, reads))
+    n = ctx.generate("MC_Sched.tla", "sched.cfg", sched_cfg(prog, nreaders, reads), h, limit=limit, timeout=1800)
+    lines = open(h).read().splitlines()
+    nchunks = 8
+    def one(c):
+        part = lines[c::nchunks]
+        if not part:
+            return None
+        inp = h.replace(".jsonl", "-%d.jsonl" % c)
+        open(inp, "w").write("\n".join(part) + "\n")
+        out = inp.replace(".jsonl", ".ndjson")
+        args = ["sched", "-seed", ctx.seed * 100000 + c * 10000, "-in", inp, "-out", out, "-prog", prog,
+                "-readers", nreaders, "-reads", reads]
+        st, poisoned = ctx.drive(args, timeout=2400)
+        ctx.validate(out, {"C05"}, module="Trace_Conc.tla", cfg="Trace_Conc.cfg",
+                     cmdline=" ".join(map(str, [ctx.bin] + args)), timeout=2400)
+        if not any(out in json.dumps(v) for v in ctx.violations):
+            os.remove(out)
+        os.remove(inp)
+        return st
+    with ThreadPoolExecutor(max_workers=8) as ex:
+        sts = [s for s in ex.map(one, range(nchunks)) if s]
+    ctx.coverage_extra["schedules_executed"] = ctx.coverage_extra.get("schedules_executed", 0) + sum(s["histories"] for s in sts)
+    return n
